@@ -275,6 +275,52 @@ class Gen:
         self.main += ["op run DEFAULT", "op run DEFAULT", "op loop_close"]
         return self.cfg + self.on + self.main
 
+    def build_timer_pass(self):
+        """several timers due in the same uv__run_timers pass (already collected into its ready queue); the callback of an
+        earlier one closes / stops / restarts later ones and itself — one-shot, repeating, zero timeout"""
+        r = self.r
+        n = r.range(2, 5)
+        self.cfg += [f"config metrics {int(r.chance(1, 2))}", f"config clock0 {r.choice([1000, 5])}", f"config cblimit {r.range(12, 30)}"]
+        self.kinds += ["timer"] * n
+        self.main += ["op init timer"] * n
+        for i in range(n):
+            self.main.append(f"op start h{i} {r.choice([0, 0, 1, 2, 3])} {r.choice([0, 0, 1, 4])}")
+        for i in range(n):
+            if r.chance(3, 4):
+                later = [j for j in range(n) if j != i]
+                ops = []
+                for _ in range(r.range(1, 3)):
+                    j = r.choice(later)
+                    ops.append(r.choice([f"close h{j}", f"close h{j}", f"stop h{j}", f"stop h{j} ; start h{j} 0 0", f"close h{i}", f"again h{j}"]))
+                self.on.append(f"on h{i} {r.below(2)} " + " ; ".join(ops))
+        self.main.append(f"op advance {r.range(3, 9)}")
+        for _ in range(r.range(1, 3)):
+            self.main.append("op run " + r.choice(["DEFAULT", "ONCE", "NOWAIT", "ONCE"]))
+            if r.chance(1, 2): self.main.append(f"op advance {r.range(1, 6)}")
+        for i in range(n):
+            self.main.append(f"op close h{i}")
+        self.main += ["op run DEFAULT", "op run DEFAULT", "op loop_close"]
+        return self.cfg + self.on + self.main
+
+    def build_stream_writes(self):
+        """stream writes on a connected pipe whose peer never reads: small writes the kernel accepts at once (callback owed,
+        in write_completed_queue) together with large ones that stay queued, then uv_close in the same tick or later"""
+        r = self.r
+        self.cfg += [f"config metrics {int(r.chance(1, 2))}", "config clock0 1000", f"config cblimit {r.range(12, 30)}"]
+        self.kinds += ["pipe", "timer"]
+        self.main += ["op init pipe", "op init timer", "op open h0"]
+        if r.chance(1, 2): self.main.append(f"op start h1 {r.range(0, 3)} 0")
+        sizes = [r.choice([1, 10, 100, 4096]) for _ in range(r.range(0, 3))] + [r.choice([1 << 20, 2 << 20, 4 << 20]) for _ in range(r.range(0, 2))] + \
+                [r.choice([1, 50]) for _ in range(r.range(0, 2))]
+        for sz in sizes or [1]:
+            self.main.append(f"op write h0 {sz}")
+        if r.chance(1, 2): self.main.append("op close h0")
+        if r.chance(1, 3): self.on.append("on r0 0 " + r.choice(["close h0", "write h0 7", "alive"]))
+        if r.chance(1, 3): self.on.append("on h1 0 close h0")
+        self.main.append("op run " + r.choice(["NOWAIT", "ONCE"]))
+        self.main += ["op close h0", "op close h1", "op run NOWAIT", "op run NOWAIT", "op loop_close"]
+        return self.cfg + self.on + self.main
+
     def build_connects(self):
         """tcp connects whose completion is decided by the kernel's answers: getsockopt(SO_ERROR) says EINPROGRESS on the first
         wake-up(s) (spurious), then the real result (success / ECONNREFUSED); closes while the connect is pending"""
@@ -358,6 +404,10 @@ class Gen:
             return self.build_connects()
         if self.bias == "C02" and r.chance(1, 8):
             return self.build_processes()
+        if self.bias == "C02" and r.chance(1, 8):
+            return self.build_timer_pass()
+        if self.bias == "C02" and r.chance(1, 9):
+            return self.build_stream_writes()
         if self.bias == "C02" and r.chance(1, 14):
             return self.build_async_threads()
         self.cfg.append(f"config metrics {int(r.chance(1, 2))}")
@@ -576,6 +626,9 @@ class Mon:
                     inflight = any(q["owed"] and q["h"] == hid for q in Rq.values())
                     own_cb = any(k == "udp_send" and Rq.get(r_, {}).get("h") == hid for k, r_ in cbstack)
                     Rq[nreq] = dict(kind="udp", h=hid, owed=True, cancelled=False, sync=not inflight and not own_cb); nreq += 1
+                elif op == "write":
+                    if ret == 0:      # stream write: completes with 0, or UV_ECANCELED when the stream is closed first
+                        Rq[nreq] = dict(kind="write", h=hid, owed=True, cancelled=False, sync=False); nreq += 1
                 elif op == "connect_bad":
                     Rq[nreq] = dict(kind="connect", h=hid, owed=True, cancelled=False); nreq += 1
                 elif op == "connect":
@@ -618,6 +671,10 @@ class Mon:
                         self.bad("C03", "timer-again-ret", f"uv_timer_again returned {ret}, expected {exp}", i)
                     if ret == 0 and t["rep"] and not H[hid]["closing"]:
                         t.update(active=True, due=min(nxt["now"] + t["rep"], U64 - 1))
+                    if ret == 0 and not t["rep"] and o0 and (o0["hs"], o0["ah"], o0["alive"]) != (nxt["hs"], nxt["ah"], nxt["alive"]):
+                        # uv_timer_again on a non-repeating timer does nothing: a pending one-shot timer stays outstanding
+                        self.bad("C01", "timer-again-changed-state", f"uv_timer_again(h{hid}) with repeat 0 changed the loop: "
+                                 f"h{hid} {o0['hs'].get(hid)} -> {nxt['hs'].get(hid)}, active_handles {o0['ah']} -> {nxt['ah']}", i)
                 elif op == "set_repeat" and hid in T:
                     T[hid]["rep"] = int(text[2])
                 elif op == "due_in" and hid in T and o0 and T[hid]["active"]:
@@ -658,7 +715,7 @@ class Mon:
                               obs_at_start=last_obs, closing_at_start={h for h, d in H.items() if d["closing"] and not d["dead"]},
                               start_line=i, stop_seen=bool(last_obs and last_obs["stop"]), cur_iter=None, first_iter=None,
                               adv_since_poll=False, udp_since_poll=False,
-                              udp_owed_at_start=any(q["owed"] and q["kind"] in ("udp", "connect") for q in Rq.values()),
+                              udp_owed_at_start=any(q["owed"] and q["kind"] in ("udp", "connect", "write") for q in Rq.values()),
                               # uv_run starts with uv__update_time when the loop is dead, or in DEFAULT mode when alive and not stopped
                               fresh=not (last_obs and (not last_obs["alive"] or (l.split()[1] == "DEFAULT" and not last_obs["stop"]))))
                 i += 1; continue
@@ -716,6 +773,10 @@ class Mon:
                             self.cp = {x for x, d in H.items() if d["closing"] and not d["dead"]}
                         h["dead"] = True
                     else:
+                        if h["closing"] and kind in ("timer", "idle", "prepare", "check", "async", "poll", "signal", "fs_event", "recv"):
+                            # silence after uv_close: the handle's own callback must not run once uv_close has returned
+                            self.bad("C02", "callback-after-close", f"`{kind}` callback of h{num} ran after uv_close(h{num}) had returned "
+                                     "(before its close_cb)", i)
                         if kind == "timer" and num in T:
                             t = T[num]
                             nxt = parse_obs(log[i + 1]) if i + 1 < n else None
@@ -753,11 +814,11 @@ class Mon:
                     if H.get(num, {}).get("kind") == "pipe":
                         pipes_bound.discard(num)
                 if in_run is not None:
-                    if kind not in ("close", "udp_send", "connect"):
+                    if kind not in ("close", "udp_send", "connect", "write"):
                         self.cp = None
                     # observations after the end-of-iteration (or run-start) uv__update_time show the exact loop time
                     if kind in ("timer", "idle", "prepare") or in_run["cur_iter"] is None: in_run["fresh"] = True
-                    if kind in ("udp_send", "connect"): in_run["udp_since_poll"] = True
+                    if kind in ("udp_send", "connect", "write"): in_run["udp_since_poll"] = True
                     in_run["top"].append(("cb", kind, num, i))
                     self.on_top_cb(in_run, kind, num, i)
                 cbstack.append((kind, num)); depth += 1
@@ -920,7 +981,7 @@ class Mon:
             r["stop_limit"] = ("first", kind)
         elif kind in ("idle", "prepare"):
             r["stop_limit"] = ("iter", cur + 1)
-        elif kind in ("udp_send", "connect"):
+        elif kind in ("udp_send", "connect", "write"):
             r["stop_limit"] = ("iter", cur + 1)     # pending phase of the next iteration or late phase of this one
         else:
             r["stop_limit"] = ("iter", cur)
@@ -935,7 +996,7 @@ class Mon:
         closing = any(d["closing"] and not d["dead"] and h not in (self.cp or ()) for h, d in H.items())
         zero = mode == "NOWAIT" or o["stop"] == 1 or idle_now or closing or (o["ah"] <= 0 and o["ar"] <= 0)
         self.zero_only_idle = idle_now and not (mode == "NOWAIT" or o["stop"] == 1 or closing or (o["ah"] <= 0 and o["ar"] <= 0))
-        lenient = any(q["owed"] and q["kind"] in ("udp", "connect") for q in Rq.values())
+        lenient = any(q["owed"] and q["kind"] in ("udp", "connect", "write") for q in Rq.values())
         if mode == "ONCE" and obs_start is not None:
             if any(H.get(h, {}).get("kind") == "idle" and f[0] == "A" for h, f in obs_start["hs"].items()):
                 zero = True
@@ -1047,7 +1108,7 @@ class Mon:
     def check_phases(self, r, i, complete):
         """phase automaton over the top-level callbacks of one uv_run + once-per-iteration"""
         pos_of = {"idle": (2,), "prepare": (3,), "check": (6,), "close": (7,), "timer": (8,), "udp_send": (1, 4, 5, 7),
-                  "connect": (1, 5, 7)}
+                  "connect": (1, 5, 7), "write": (1, 4, 5, 7)}
         states = {(0, False, 0)}
         percount = {}
         cur = None
@@ -1168,7 +1229,7 @@ def prog_metrics(prog):
 
 
 def evaluate(ctx, exe, prog, tag, with_model=True):
-    if any(re.search(r"\b(touch|work_nocb|udp_send_nocb|dgram|init_fail|raise|spawn|open|fail|async_send_thread|connect)\b|config eagain", l) for l in prog):
+    if any(re.search(r"\b(touch|work_nocb|udp_send_nocb|dgram|init_fail|raise|spawn|open|fail|async_send_thread|connect|write)\b|config eagain", l) for l in prog):
         # file-system traffic, requests without completion callback, incoming datagrams / forced EAGAIN:
         # monitors only (the model has no semantics for them)
         with_model = False
